@@ -42,9 +42,7 @@ impl From<Limb> for BoxedUint {
 
 impl From<&[Limb]> for BoxedUint {
     fn from(limbs: &[Limb]) -> BoxedUint {
-        Self {
-            limbs: limbs.into(),
-        }
+        Vec::from(limbs).into()
     }
 }
 
